@@ -35,6 +35,18 @@ func TestC16Enum(t *testing.T) {
 	C16Mth.RunShards(t, fmt.Sprintf("GetMethodNo on all byte strings of length 0..%d", maxLen), maxLen >= 3, 64, func(s int, emit func(CaseName) bool) {
 		enumShort(maxLen, s, 64, emit)
 	})
+	C16Hdr.RunShards(t, "all two-substitution neighbours (256 x 256 byte values) of every header table name", true, 32, func(s int, emit func(CaseName) bool) {
+		enumTwoSub(hdrTableNames(), s, 32, emit)
+	})
+	C16Mth.RunShards(t, "all two-substitution neighbours (256 x 256 byte values) of every method name", true, 32, func(s int, emit func(CaseName) bool) {
+		enumTwoSub(mthTableNames(), s, 32, emit)
+	})
+	C16Hdr.RunCases(t, "every header name + 255/256/257/512/768/1024 padding bytes", true, func(emit func(CaseName) bool) {
+		enumLongPadded(hdrTableNames(), emit)
+	})
+	C16Mth.RunCases(t, "every method name + 255/256/257/512/768/1024 padding bytes", true, func(emit func(CaseName) bool) {
+		enumLongPadded(mthTableNames(), emit)
+	})
 	C16Round.RunCases(t, "all 256 numeric methods: name and back", true, func(emit func(CaseMthNo) bool) {
 		for m := 0; m < 256; m++ {
 			if !emit(CaseMthNo{M: m}) {
